@@ -158,6 +158,27 @@ class ConnectRace(Scenario):
         return tuple(ev[2].type for ev in w.log if ev[0] == 'tx' and ev[1] == 'c0')
 
 
+RAISING = (False, 'app', 'protocol-rejected', 'protocol-invalid', 'application-error', 'protocol-connection-error', 'key-error', 'after-await')
+
+
+def make_setup_exc(kind):
+    """What on_setup raises: a plain exception, or the library's own exception types (what a handler gets when a call it made
+    to another RSocket service was answered with ERROR) - the answer must be REJECTED_SETUP either way."""
+    from rsocket.exceptions import RSocketProtocolError, RSocketApplicationError
+    from rsocket.error_codes import ErrorCode
+    if kind in (True, 'app', 'after-await'):
+        return AppRaise('on_setup rejects')
+    if kind == 'protocol-rejected':
+        return RSocketProtocolError(ErrorCode.REJECTED, data='upstream rejected')
+    if kind == 'protocol-invalid':
+        return RSocketProtocolError(ErrorCode.INVALID, data='upstream invalid')
+    if kind == 'protocol-connection-error':
+        return RSocketProtocolError(ErrorCode.CONNECTION_ERROR, data='upstream connection error')
+    if kind == 'application-error':
+        return RSocketApplicationError('upstream application error')
+    return KeyError(('no', 'text'))
+
+
 # ---- (c) ------------------------------------------------------------------------------------------------------------
 def server_case(flavour, resume, lease, publisher, raising, frame_kind, part):
     from rsocket.lease import SingleLeasePublisher
@@ -165,8 +186,14 @@ def server_case(flavour, resume, lease, publisher, raising, frame_kind, part):
 
     def on_setup(h, p):
         calls.append(1)
+        if raising == 'after-await':
+            async def later():
+                import asyncio
+                await asyncio.sleep(0)
+                raise make_setup_exc(raising)
+            return later()
         if raising:
-            raise AppRaise('on_setup rejects')
+            raise make_setup_exc(raising)
 
     s = Solo('server', flavour, beh={'on_setup': on_setup}, setup=False,
              lease_publisher=SingleLeasePublisher(maximum_request_count=3) if publisher else None)
@@ -194,7 +221,7 @@ def server_case(flavour, resume, lease, publisher, raising, frame_kind, part):
             want = 0x003
         else:
             want = None
-        ctx = '%s resume=%s lease=%s publisher=%s on_setup-%s' % (frame_kind, resume, lease, publisher, 'raises' if raising else 'ok')
+        ctx = '%s resume=%s lease=%s publisher=%s on_setup-%s' % (frame_kind, resume, lease, publisher, ('raises' if raising in (True, 'app') else 'raises-' + raising) if raising else 'ok')
         if want is None:
             if len(calls) != 1:
                 part.violate('C16.on-setup-once', 'C16.on-setup-once | calls=%d | %s' % (len(calls), ctx), 'acceptable SETUP: on_setup invoked %d times' % len(calls), wit)
@@ -243,10 +270,12 @@ def run_unit(unit, part):
                 fidelity_case(unit['flavour'], 2250, 250, dname, mname, pname, unit['lease'], fs, part)
         part.sample({'kind': 'fidelity', 'link': unit['flavour'], 'lease': unit['lease'], 'periods_ms': list(PERIODS_MS)}, limit=1)
     elif unit['kind'] == 'server':
-        for resume, lease, publisher, raising in itertools.product((False, True), repeat=4):
-            server_case(unit['flavour'], resume, lease, publisher, raising, 'setup', part)
-        for publisher, raising in itertools.product((False, True), repeat=2):
-            server_case(unit['flavour'], False, False, publisher, raising, 'resume', part)
+        for resume, lease, publisher in itertools.product((False, True), repeat=3):
+            for raising in RAISING:
+                server_case(unit['flavour'], resume, lease, publisher, raising, 'setup', part)
+        for publisher in (False, True):
+            for raising in RAISING[:3]:
+                server_case(unit['flavour'], False, False, publisher, raising, 'resume', part)
         part.sample({'kind': 'server-inputs', 'link': unit['flavour']}, limit=1)
     else:
         scn = ConnectRace(unit['flavour'], unit['gate'], unit['late'], tuple(unit['kinds']))
